@@ -29,7 +29,7 @@ func verifPlant(base string, unc bool, n int) verifPlanted {
 		own, other = "", ".cacnk"
 	}
 	dir := base + "/" + hx[0:4]
-	kind := verifSymChoice("file-kind", 6)
+	kind := verifSymChoice("file-kind", 8)
 	p := verifPlanted{kind: kind, id: id}
 	switch kind {
 	case 0: // canonical chunk of the store's own format
@@ -44,6 +44,10 @@ func verifPlant(base string, unc bool, n int) verifPlanted {
 		p.path = dir + "/nothex" + own + ".bak"
 	case 5: // file directly in the base directory
 		p.path = base + "/index.caibx"
+	case 6: // a chunk-named file in the wrong prefix directory (not a file the store would ever read)
+		p.path = base + "/zzzz/" + hx + own
+	case 7: // a chunk-named file of a nested tree (backup copy, another store below this one)
+		p.path = base + "/backup/" + hx[0:4] + "/" + hx + own
 	}
 	os.MkdirAll(filepath.Dir(p.path), 0755)
 	content := data
